@@ -133,6 +133,41 @@ pub fn case(ctx: &Ctx, w: usize, h: usize, k: u64, rep: &mut Report) {
             }
         }
     }
+    // standard mode: a predicted picture of intra macroblocks only that does not restate the format (UFEP = 000):
+    // its size is the one in force, and it must be post-processable like any other picture
+    if flavour == Flavour::StdPlus && rng.chance(2, 3) {
+        let mut c2 = cfg.clone();
+        c2.tr = cfg.tr.wrapping_add(3);
+        let mut q = gen_intra(&mut rng, &c2);
+        if let crate::model::syntax::Hdr::Std(hd) = &mut q.hdr {
+            hd.inter = true;
+            if let Some(pl) = hd.plus.as_mut() {
+                pl.ptype = 1;
+            }
+        }
+        if drop_format(&mut q) {
+            rep.evaluations += 1;
+            let coords2 = || J::obj().set("property", "C13").set("tier", ctx.tier_name()).set("seed", ctx.seed).set("stage", ctx.stage.clone()).set("w", w).set("h", h).set("k", k).set("what", "format-less intra-only predicted picture");
+            match dec.decode(&q.encode()) {
+                Outcome::Ok => {
+                    let r = crate::util::catch(|| pipeline(&dec, w, h, c2.quant, rep, &coords2));
+                    match r {
+                        Ok(true) => rep.count("formatless_intra_only_pictures_postprocessed"),
+                        Ok(false) => return,
+                        Err(p) => {
+                            rep.violation(format!("panic@{}", p.loc), format!("reading the planes of a format-less predicted picture panicked: {}", p.msg), coords2());
+                            return;
+                        }
+                    }
+                }
+                Outcome::Panic { msg, loc } => {
+                    rep.violation(format!("panic@{}", loc), format!("format-less intra-only predicted picture panicked: {}", msg), coords2());
+                    return;
+                }
+                Outcome::Err(e) => rep.count(&format!("skipped:formatless:{}", e)),
+            }
+        }
+    }
     // a predicted picture of another size (same width, other height, or the other way round) whose macroblocks
     // are all not coded: it cannot be predicted and is refused - but if a decoder does accept it, what it
     // exposes must still be a picture of the size its header states
@@ -163,7 +198,8 @@ pub fn case(ctx: &Ctx, w: usize, h: usize, k: u64, rep: &mut Report) {
     if rng.chance(1, 3) {
         let (w2, h2) = if flavour.sorenson() { (1 + rng.below(90) as usize, 1 + rng.below(90) as usize) } else { (4 * (1 + rng.below(22) as usize), 4 * (1 + rng.below(22) as usize)) };
         let mut c2 = gen_cfg(&mut rng, flavour, w2, h2);
-        c2.tr = cfg.tr.wrapping_add(1);
+        // the temporal reference moves on - or, one time in three, repeats that of the picture before
+        c2.tr = if rng.chance(1, 3) { cfg.tr } else { cfg.tr.wrapping_add(1) };
         c2.wide_levels = false;
         let mut pic2 = gen_intra(&mut rng, &c2);
         let kind = rng.below(3) as u8;
@@ -302,6 +338,7 @@ pub fn run(ctx: &Ctx) -> (Report, String) {
         rep.require("p_pictures_postprocessed", 1000);
         rep.require("same_area_reshaped_pictures_postprocessed", 1000);
         rep.require("resized_skipped_picture_refused", 500);
+        rep.require("formatless_intra_only_pictures_postprocessed", 80);
         for k in ["resized:intra", "resized:predicted-all-intra", "resized:disposable-all-intra"] {
             rep.require(k, 300);
         }
